@@ -106,8 +106,9 @@ class Executor(ExecFull):
             ety = c.yields or VAL
             fr.yielded = SV(z3.Empty(SEQ(ety).sort()), SEQ(ety))
             fr.env["_yielded"] = fr.yielded
-        saved = self.prefix
+        saved, saved_l0 = self.prefix, self.line0
         self.prefix = f"{saved}>{fn.name}"
+        self.line0 = fn.node.lineno
         self.call_depth += 1
         try:
             self.exec_block(fn.node.body, fr)
@@ -115,7 +116,7 @@ class Executor(ExecFull):
         except _Return as ret:
             r = ret.value
         finally:
-            self.prefix = saved
+            self.prefix, self.line0 = saved, saved_l0
             self.call_depth -= 1
         if is_gen:
             return GenResult(fr.yielded)
@@ -238,7 +239,9 @@ def verify_function(world, key, max_paths=4000, executor_cls=Executor):
             path = Path(pre, worklist)
             ex = executor_cls(path, world)
             ex.fuel = c.fuel
+            ex.semantic_prune = c.semantic_prune
             ex.prefix = key.split("::")[1]
+            ex.line0 = fn.node.lineno
             try:
                 run_one_path(ex, world, fn, c)
             except PathEnd as e:
@@ -266,15 +269,36 @@ def run_one_path(ex, world, fn, c):
             raise OutOfSubset(f"contract of {fn.key} does not declare parameter {nm}")
         env[nm] = ex.make_param(nm, c.params[nm])
     fr = Frame(dict(env), fn.globals, fn.name, contract=c)
+    from .engine3 import assigned_names
+
+    fr.locals_declared = assigned_names([st for st in fn.node.body]) - set(env)
     for g, ty in c.ghost.items():
         fr.env[g] = ex.make_param(g, ty)
+    for g, (ty, facts) in c.abstract_globals.items():
+        live = fn.globals[g]
+        fr.env[g] = ex.make_param(g, ty)
+        for fact in facts:
+            p.assume(ex.eval_clause(fact, fr))
+            if not p.taken and not p.prescribed:
+                from .concrete import clause_namespace, ceval
+
+                ok = bool(ceval(fact, clause_namespace(world), {g: live}))
+                p.obligations.append(Obligation(f"{ex.prefix}/ground-global[{g}: {fact}]", "ground", [], z3.BoolVal(ok), where="live module constant"))
     if c.setup:
         c.setup(ex, fr)
     for r in c.requires:
         p.assume(ex.eval_clause(r, fr))
     # cover: the precondition is inhabited
     if not p.taken and not p.prescribed:
-        p.obligations.append(Obligation(f"{ex.prefix}/cover-pre", "cover", list(p.pc), z3.BoolVal(True), expect="sat"))
+        if c.witness is not None:
+            from .concrete import clause_namespace, ceval
+
+            ns = clause_namespace(world)
+            ns.update({g: fn.globals[g] for g in c.abstract_globals})
+            ok = all(bool(ceval(r, ns, c.witness)) for r in c.requires)
+            p.obligations.append(Obligation(f"{ex.prefix}/cover-pre[witness]", "cover", [], z3.BoolVal(ok), expect="sat"))
+        else:
+            p.obligations.append(Obligation(f"{ex.prefix}/cover-pre", "cover", list(p.pc), z3.BoolVal(True), expect="sat"))
     for nm, text in c.lets.items():
         fr.env[nm] = ex.eval_value_clause(text, fr)
     old = {nm: ex.snapshot(v) for nm, v in env.items()}
